@@ -122,6 +122,18 @@ def gen_cases(tier, seed):
             s['exit'] = rng.choice(['shutdown', 'with'])
             s['plan'] = {'gate': {'match': rng.choice(['s3:GetObject', '/pp:job_complete']), 'phase': 'before', 'policy': pol}}
             cases.append(s)
+    # Ctrl-C in the with-block when an earlier download has finished and later ones have not (their requests are held at a gate)
+    for i in range(20 if quick else 200):
+        nd = rng.choice([2, 3])
+        sizes = [rng.choice([5, 20, 30]) for _ in range(nd)]
+        s = {'front_end': 'procpool_full', 'dirwatch': True, 'seed': rng.randrange(1 << 30), 'exit': 'with_kbi', 'family': 'kbi-after-some-done',
+             'config': dict(multipart_threshold=16, multipart_chunksize=8, workers=rng.choice([1, 2, 3]), io_chunksize=4),
+             'transfers': [{'kind': 'download', 'dst': 'path', 'size': sz, 'preexisting': rng.random() < 0.3} for sz in sizes],
+             'kbi_after_done': [0] if rng.random() < 0.7 else [0, 1][:nd - 1],
+             'plan': {'gate': {'match': [f't{k}/s3:GetObject' for k in range(1, nd)], 'phase': 'before', 'policy': 'seeded', 'after_cancel_begin': True}}}
+        if len(s['kbi_after_done']) == 2:
+            s['plan']['gate']['match'] = [f't{nd - 1}/s3:GetObject']
+        cases.append(s)
     # one preemption at every statement of the monitor / transfer-state / worker / submitter code: the nth thread reaching the
     # line is held there until every other thread has run as far as it can (e.g. a worker between releasing the job-count lock
     # and using the count it read)
@@ -201,6 +213,10 @@ def evaluate(obs):
             viol.append(V(f'{x.label}: not done when {ex} returned', sym='exit-before-done', **mech))
         if x.outcome == 'success':
             viol += oracles.content_oracle(obs, x)
+        ca = [e for e in obs.events if e['kind'] == 'pp.cancel_all']
+        if ex == 'with_kbi' and ca and x.idx not in ca[0]['done_before'] and x.outcome == 'success':
+            viol.append(V(f'{x.label}: was unfinished when Ctrl-C left the with-block (downloads done by then: {ca[0]["done_before"]}), yet it was '
+                          f'not cancelled: result() returned normally', sym='kbi-not-cancelled', **mech))
         if ex == 'with_kbi' and x.outcome == 'raised' and not isinstance(x.exc, oracles.CancelledError) and not obs.world.director.raised:
             viol.append(V(f'{x.label}: Ctrl-C in the with-block, but result() raised {x.exc!r}', sym='kbi-wrong-error', **mech))
         if njobs >= 2 or obs.world.director.raised or obs.cancel_events:
